@@ -6,7 +6,7 @@ tied to /repo on every run by the T2 correspondence of tools/props/C01.py (same 
 configurations through the real `HelicityAmplitudeBuilder` and through this model).
 Only property theorems and non-vacuity examples live here; lemmas are in Lemmas/C01*.lean.
 -/
-import Ampverif.Lemmas.C01Chains
+import Ampverif.Lemmas.C01Align
 import Ampverif.Lemmas.C01Examples
 
 namespace Ampverif.Props.C01
@@ -47,10 +47,10 @@ theorem C01_refs_defined_product (v : Variant) (hz : v.zeroDefs = .product) (r :
 
 /-! ## Parameter xor kinematic variable -/
 
-/-- the full statement, for all three alignments (proved below for `NoAlignment`) -/
-def C01_xor_full_statement : Prop :=
+/-- the full statement, for all three alignments (proved below as `C01_xor`) -/
+def C01_xor_statement : Prop :=
   ∀ (v : Variant), v.sound → ∀ (r : Reaction) (cfg : Config),
-    (∀ t ∈ registeredTopos v r cfg, t.wf = true) →
+    (∀ t ∈ registeredTopos v r cfg, t.wf = true) → errorOf v r cfg = none →
     ∀ s ∈ freeSyms v r cfg,
       (s ∈ params v r cfg ∧ s ∉ kinvars v r cfg) ∨ (s ∉ params v r cfg ∧ s ∈ kinvars v r cfg)
 
@@ -121,6 +121,128 @@ theorem C01_xor_partial (v : Variant) (hreg : v.regCombTopos = true) (r : Reacti
         · exact classes_disjoint s ⟨hP s hc, hK s hsA⟩
         · exact hm hc
       · exact List.mem_filter.2 ⟨hsA, by simp [hm]⟩
+
+/-- **C01 (all alignments).** For the sound variant, every reaction over well-formed isobar trees and every
+configuration on which `formulate()` succeeds (NoAlignment, AxisAngleAlignment, DalitzPlotDecomposition with
+any reference subsystem; any stable ids, scalar initial mass, couplings, naming flags, dynamics by name, permuted
+topologies): every free symbol of `model.expression` is a key of exactly one of `parameter_defaults` /
+`kinematic_variables`. -/
+theorem C01_xor : C01_xor_statement := by
+  intro v hsound r cfg hwf herr s hs
+  have hreg : v.regCombTopos = true := hsound.2
+  have hP := chainParams_class v r cfg
+  have hA := adapterKeys_class v r cfg hwf
+  cases hal : cfg.align with
+  | none => exact C01_xor_partial v hreg r cfg hal hwf s hs
+  | axis =>
+    have hpar : params v r cfg = (transOuts v r cfg).flatMap TOut.params ++ movedMasses r cfg ++ [] := by
+      simp [params, result, hal, alignParams]
+    have hkin : kinvars v r cfg = (adapterKeys v r cfg).filter (fun k => k ∉ movedMasses r cfg) ++ axisKeys r := by
+      simp [kinvars, kinvarsDeps, result, hal, List.map_map, Function.comp_def]
+    rw [hpar, hkin]
+    apply xor_abstract _ _ _ _ _ s hP hA (axisKeys_isKin r)
+    · intro k hk hc
+      obtain ⟨rest, h1⟩ := moved_first r cfg k hk
+      obtain ⟨c, rest', h2, h3⟩ := axisKeys_first r k hc
+      rw [h1] at h2
+      have := (List.cons.inj h2).1
+      rcases h3 with h3 | h3 | h3 <;> omega
+    · intro k hk; cases hk
+    · simp only [freeSyms, result, hal, List.mem_append] at hs
+      rcases hs with hs | hs
+      · rcases free_amps_class v hreg r cfg hwf _ s hs with h | h
+        · left; exact h
+        · right; left; exact h
+      · rcases axisFree_class v r cfg hwf s hs with h | h
+        · right; left; exact h
+        · right; right; exact h
+  | dpd ref =>
+    obtain ⟨houter, href, hstable⟩ := dpd_ok_of_noerror v r cfg herr ref hal
+    have hshape := dpdZetas_shape r ref href
+    -- names of the pieces
+    let present := (adapterKeys v r cfg).filter (fun k => k ∉ movedMasses r cfg)
+    let zetas := dpdZetas r ref
+    let remaining := dpdRemaining present zetas
+    have hpar : params v r cfg = (transOuts v r cfg).flatMap TOut.params ++ movedMasses r cfg
+        ++ dpdParamMasses cfg remaining := by
+      simp [params, result, hal, alignParams, present, zetas, remaining]
+    have hkin : kinvars v r cfg = present ++ (dpdReadded cfg remaining ++ zetas.map (·.1)) := by
+      simp [kinvars, kinvarsDeps, result, hal, List.map_map, Function.comp_def, present, zetas, remaining,
+        List.append_assoc]
+    have hrem : ∀ k ∈ remaining, k ∉ present ∧ ∃ z ∈ zetas, k ∈ z.2 := by
+      intro k hk
+      simp only [remaining, dpdRemaining, mem_dedup, List.mem_filter, List.mem_flatMap] at hk
+      obtain ⟨⟨z, hz, hkz⟩, hnp⟩ := hk
+      exact ⟨by simpa using hnp, z, hz, hkz⟩
+    rw [hpar, hkin]
+    apply xor_abstract _ _ _ _ _ s hP hA
+    · -- extra keys are in the kinematic-variable name class
+      intro k hk
+      rcases List.mem_append.1 hk with hk | hk
+      · obtain ⟨_, z, hz, hkz⟩ := hrem k (List.mem_filter.1 hk).1
+        exact ((hshape z hz).2.2 k hkz).1
+      · simp only [List.mem_map] at hk
+        obtain ⟨z, hz, rfl⟩ := hk
+        exact (hshape z hz).2.1
+    · -- moved masses are neither re-added nor zeta names
+      intro k hk hc
+      rcases List.mem_append.1 hc with hc | hc
+      · have hkeep := (List.mem_filter.1 hc).2
+        obtain ⟨_, z, hz, hkz⟩ := hrem k (List.mem_filter.1 hc).1
+        simp only [movedMasses, List.mem_append] at hk
+        rcases hk with hk | hk
+        · -- a stable final-state mass m_1, m_2 or m_3
+          have hne : k ≠ mN 0 := by
+            simp only [stableMasses] at hk
+            split at hk
+            · cases hk
+            · rename_i ids hids
+              simp only [List.mem_map] at hk
+              obtain ⟨i, hi, rfl⟩ := hk
+              exact mN_cases_ne_moved_stable i (hstable ids hids i hi)
+          simp [hne, hk] at hkeep
+        · -- the scalar initial mass m_123
+          have h123 : k = n!"m_123" := by
+            simp only [scalarMass] at hk
+            split at hk
+            · split at hk
+              · cases hk
+              · rename_i t0 rest htr
+                have hfin : finalIds r t0 = [1, 2, 3] := by
+                  simp only [outerIds, htr] at houter
+                  exact (List.cons.inj houter).2
+                simp only [List.mem_singleton, hfin] at hk
+                rw [hk]; decide
+            · cases hk
+          exact ((hshape z hz).2.2 k hkz).2.1 h123
+      · simp only [List.mem_map] at hc
+        obtain ⟨z, hz, rfl⟩ := hc
+        obtain ⟨rest, h1⟩ := moved_first r cfg _ hk
+        obtain ⟨rest', h2⟩ := (hshape z hz).1
+        rw [h1] at h2
+        have := (List.cons.inj h2).1
+        omega
+    · -- the scalar m_0 (parameter) is neither a registered / re-added variable nor a zeta name
+      intro k hk
+      simp only [dpdParamMasses, List.mem_filter, Bool.and_eq_true, decide_eq_true_eq] at hk
+      obtain ⟨hkr, hk0, hsc⟩ := hk
+      refine ⟨(hrem k hkr).1, ?_⟩
+      intro hc
+      rcases List.mem_append.1 hc with hc | hc
+      · have hkeep := (List.mem_filter.1 hc).2
+        simp [hk0, hsc] at hkeep
+      · simp only [List.mem_map] at hc
+        obtain ⟨z, hz, hzk⟩ := hc
+        obtain ⟨rest', h2⟩ := (hshape z hz).1
+        rw [hzk, hk0] at h2
+        simp [mN, natName, natDigitsF] at h2
+    · simp only [freeSyms, result, hal, List.mem_append] at hs
+      rcases hs with hs | hs
+      · rcases free_amps_class v hreg r cfg hwf _ s hs with h | h
+        · left; exact h
+        · right; left; exact h
+      · right; right
+        exact List.mem_append_right _ hs
 
 /-! ## Kinematic variables are closed over four-momenta and parameters -/
 
@@ -218,6 +340,12 @@ example : ((result vSound etaC cfgDefault).defs.filter (fun kv => kv.2.zero)).le
     ∧ (result vSound etaC cfgDefault).refs.length = 4 := by decide
 /-- the axis-angle witness is repaired by the sound variant -/
 example : undefinedRefs vSound jpsiPartial cfgAxis = [] := C01_no_undefined vSound rfl _ _
+/-- the hypotheses of the full theorem hold on a DPD configuration with stable masses and scalar initial mass -/
+example : vSound.sound ∧ (∀ t ∈ registeredTopos vSound dpdR cfgDpd, t.wf = true) ∧ errorOf vSound dpdR cfgDpd = none
+    ∧ (freeSyms vSound dpdR cfgDpd).length ≠ 0 := by decide
+/-- … and on the axis-angle witness reaction -/
+example : (∀ t ∈ registeredTopos vSound jpsiPartial cfgAxis, t.wf = true) ∧ errorOf vSound jpsiPartial cfgAxis = none := by
+  decide
 /-- DPD: a kinematic variable that depends on parameters exists (so `C01_kin_closed` is not vacuous) -/
 example : ∃ kd ∈ kinvarsDeps vSound dpdR cfgDpd, kd.2 ≠ [] := by decide
 
